@@ -22,6 +22,7 @@ FULL-STRENGTH STATEMENTS (hold iff `codeCfg.recheck = true`, see `code_safe`):
 -/
 import LinVerif.Lemmas.C02Read
 import LinVerif.Lemmas.C02TokStep
+import LinVerif.Lemmas.C02Lru
 import LinVerif.Lemmas.C02Cur
 import LinVerif.Generated.C02
 
@@ -686,6 +687,54 @@ theorem cleanup_any_choice_keeps_held_readers {cfg : Cfg} {v0 f0 : Nat} {s s' : 
     · cases hst; exact ⟨rfl, rfl⟩
     · cases hst
   exact hs'.held_mapped i (by rw [hsnap.2]; exact hi) (by rw [hsnap.1]; exact ho) f (by rw [hsnap.1]; exact hf)
+
+/-! ### the concrete reader cache (LRU list, `last` timestamps, TTL) refines the abstract one -/
+
+theorem tie_lruWalk : Generated.C02.lruWalkShape = Code.lruWalkShape := rfl
+
+/-- The deterministic `Cleanup` of kv/table/cache.go — walk from the LRU tail, close while the entry
+is unreferenced AND expired (`now - last > ttl`), stop at the first that is not — is, for EVERY
+ttl, clock value and LRU order, one of the choices of the model's nondeterministic `cleanup` step:
+the step is enabled for exactly the set the walk closed and yields the walked list's abstraction. -/
+theorem ttl_lru_cleanup_refines_cleanup (cfg : Cfg) (s : St) (l : Lru) (hl : LruOk l) (hc : s.cref = absLru l)
+    (ttl : Int) (now : Nat) :
+    ∃ s', step cfg s (.cleanup (lruClosed ttl now l)) = some s' ∧ s'.cref = absLru (lruWalk ttl now l) ∧
+      LruOk (lruWalk ttl now l) := by
+  have hidle := lruClosed_idle (ttl := ttl) (now := now) hl
+  refine ⟨cleanFiles s (lruClosed ttl now l), ?_, ?_, lruOk_walk hl⟩
+  · simp [step, hc, hidle]
+  · simp [cleanFiles, hc, absLru_walk hl]
+
+/-- hence, over all schedules and whatever the TTL, the clock and the LRU order are: the real
+`Cleanup` never closes (unmaps) a reader that an open snapshot retains -/
+theorem ttl_lru_cleanup_keeps_held_readers {cfg : Cfg} {v0 f0 : Nat} {s : St} (hr : cfg.recheck = true)
+    (hcl : cfg.cloneLocked = true) (hal : cfg.allocLocked = true) (hfe : cfg.findErrReleases = false) (hpf : cfg.pendFirst = true)
+    (hcc : cfg.closeCAS = true) (hga : cfg.getReaderAtomic = true) (hlf : cfg.listFirst = true) (h : Reachable cfg v0 f0 s)
+    (l : Lru) (hl : LruOk l) (hc : s.cref = absLru l) (ttl : Int) (now : Nat) :
+    ∀ i, i < s.nSnap → (s.snap i).st = .opened → ∀ f ∈ (s.snap i).held,
+      absLru (lruWalk ttl now l) f ≠ none ∧ f ∉ lruClosed ttl now l := by
+  obtain ⟨s', hst, hcref, _⟩ := ttl_lru_cleanup_refines_cleanup cfg s l hl hc ttl now
+  have hk := (cleanup_any_choice_keeps_held_readers hr hcl hal hfe hpf hcc hga hlf h _ hst).2
+  intro i hi ho f hf
+  have h1 := hk i hi ho f hf
+  rw [hcref] at h1
+  refine ⟨h1, ?_⟩
+  intro hmem
+  rw [absLru_walk hl, cleanup_apply] at h1
+  simp [hmem] at h1
+
+/-- `Evict` and a `GetReader` hit / miss of the list model are the abstract `evict` / `getReader` -/
+theorem lru_evict_getReader_refine (l : Lru) (disk : List Nat) (now f : Nat) :
+    absLru (lruEvict l f) = evict (absLru l) f ∧
+    (lruGet l disk now f).map absLru = getReader (absLru l) disk f := by
+  refine ⟨absLru_evict l f, ?_⟩
+  cases h : absLru l f with
+  | none => exact absLru_get_miss h
+  | some r => exact absLru_get_hit h
+
+/-- non-vacuity: a three-entry LRU list whose tail is idle and expired, middle is retained -/
+example : lruClosed 10 100 [⟨4, 0, 95⟩, ⟨3, 1, 10⟩, ⟨2, 0, 20⟩] = [2] ∧
+    (lruWalk 10 100 [⟨4, 0, 95⟩, ⟨3, 1, 10⟩, ⟨2, 0, 20⟩]).map (·.file) = [4, 3] := by decide
 
 /-! ### non-vacuity: a non-trivial reachable state of the safe variant -/
 
